@@ -154,6 +154,8 @@ def with_defaults_trimmed(config: _T, remove_deep_defaults: bool = False) -> _T:
         )
         if (
             param.kind != inspect.Parameter.VAR_KEYWORD
+            # (True == 1 == 1.0, but they are not the same argument value.)
+            and type(param_default) is type(attr_value)
             and param_default == attr_value
             # All paths must flow through both the parent config (`value`) and
             # the specific attribute which is being defaulted, in order for us
